@@ -14,7 +14,6 @@ import (
 	"syscall"
 	"time"
 
-	"go.uber.org/multierr"
 	"go.uber.org/zap/zapcore"
 )
 
@@ -118,7 +117,15 @@ func c12loopPresent() bool {
 
 func c12errClass(err error) int {
 	c := 0
-	for _, e := range multierr.Errors(err) {
+	if err == nil {
+		return 0
+	}
+	// multierr's combined error exposes its parts through Errors() []error
+	parts := []error{err}
+	if g, ok := err.(interface{ Errors() []error }); ok {
+		parts = g.Errors()
+	}
+	for _, e := range parts {
 		switch {
 		case errors.Is(e, errC12Write):
 			c += 1
@@ -403,21 +410,21 @@ func c12(c *Ctx) {
 		ops  []c12op
 		outs []c12out
 	}{
-		{4, []c12op{c12w("abc"), c12w("de"), c12S}, nil},                                  // pre-flush: must not split "de"
-		{4, []c12op{c12w("abc"), c12w("d"), c12w("e"), c12X}, nil},                         // exactly the free space
-		{4, []c12op{c12w("abcdefgh"), c12w(""), c12w("ab"), c12w("abcdef"), c12S}, nil},   // larger than the buffer
-		{4, []c12op{c12w("ab"), c12X, c12w("cd"), c12X}, nil},                              // write after Stop, Stop again
+		{4, []c12op{c12w("abc"), c12w("de"), c12S}, nil},                                // pre-flush: must not split "de"
+		{4, []c12op{c12w("abc"), c12w("d"), c12w("e"), c12X}, nil},                      // exactly the free space
+		{4, []c12op{c12w("abcdefgh"), c12w(""), c12w("ab"), c12w("abcdef"), c12S}, nil}, // larger than the buffer
+		{4, []c12op{c12w("ab"), c12X, c12w("cd"), c12X}, nil},                           // write after Stop, Stop again
 		{4, []c12op{c12w("ab"), c12X, c12w("cd"), c12w("efghij"), c12T, c12X, c12S}, nil},
-		{4, []c12op{c12X, c12X, c12S, c12T, c12w("ab"), c12T, c12X, c12X}, nil},            // Stop before any use
-		{4, []c12op{c12S, c12w("ab"), c12T, c12w("cd"), c12T, c12T}, nil},                  // ticks
+		{4, []c12op{c12X, c12X, c12S, c12T, c12w("ab"), c12T, c12X, c12X}, nil}, // Stop before any use
+		{4, []c12op{c12S, c12w("ab"), c12T, c12w("cd"), c12T, c12T}, nil},       // ticks
 		{1, []c12op{c12w("a"), c12w("b"), c12w(""), c12w("cd"), c12X}, nil},
-		{0, []c12op{c12w("abc"), c12w(string(make([]byte, 5000))), c12S, c12X}, nil},       // default size 256 KiB
-		{-1, []c12op{c12w("abc"), c12w(string(make([]byte, 5000))), c12w("x"), c12X}, nil}, // bufio default 4096
-		{4, []c12op{c12w("abc"), c12w("de"), c12S, c12w("f"), c12X}, []c12out{{-1, true}}}, // flush error is sticky
-		{4, []c12op{c12w("abc"), c12w("de"), c12S, c12w("f"), c12X}, []c12out{{1, false}}}, // short write
-		{4, []c12op{c12w("abcdefg"), c12w("hi"), c12S}, []c12out{{3, false}}},              // short direct write continues
+		{0, []c12op{c12w("abc"), c12w(string(make([]byte, 5000))), c12S, c12X}, nil},                          // default size 256 KiB
+		{-1, []c12op{c12w("abc"), c12w(string(make([]byte, 5000))), c12w("x"), c12X}, nil},                    // bufio default 4096
+		{4, []c12op{c12w("abc"), c12w("de"), c12S, c12w("f"), c12X}, []c12out{{-1, true}}},                    // flush error is sticky
+		{4, []c12op{c12w("abc"), c12w("de"), c12S, c12w("f"), c12X}, []c12out{{1, false}}},                    // short write
+		{4, []c12op{c12w("abcdefg"), c12w("hi"), c12S}, []c12out{{3, false}}},                                 // short direct write continues
 		{4, []c12op{c12w("ab"), c12S, c12X, c12X}, []c12out{{-1, false}, {-1, true}, {-1, true}, {-1, true}}}, // sync errors
-		{4, []c12op{c12w("ab"), c12X, c12X}, []c12out{{-1, true}}},                         // zap's own "stop twice"
+		{4, []c12op{c12w("ab"), c12X, c12X}, []c12out{{-1, true}}},                                            // zap's own "stop twice"
 	}
 	for _, d := range directed {
 		c12emit(c, d.size, d.ops, d.outs, 0, "directed")
